@@ -13,6 +13,10 @@ CHECKS = {
                  bounds="session table {A,B} each present/absent with arbitrary parameters and last id; arbitrary election state; announcing session any string; id any 128-bit value"),
             dict(pkg="server", harness="VfC05_concurrent", reach=["end"], validate=0, replay_attempts=3, opts=dict(unwind=16),
                  bounds="two sessions announce arbitrary non-zero 128-bit ids CONCURRENTLY (real runElection in two goroutines); every schedule with up to 2 pre-emptive context switches at synchronisation points; quiescent primary / current id = maximum and its announcer, each response between the announced id and the maximum (native replay: 300 000 rounds of real goroutines)"),
+            dict(pkg="server", harness="VfC05_handover", reach=["end"],
+                 bounds="A announces any id a and operates (a READ of the election state), B announces any id b (lower / equal / higher), then B and A each operate with their own id: whose operation is accepted = who the primary is (ties go to the later announcer, a lower id never dethrones); both responses carry the running maximum and the first is unchanged by what follows"),
+            dict(pkg="server", harness="VfC05_mixed4", reach=["end", "with-operation"], quick=dict(skip=True),
+                 bounds="histories from the initial state of 4 steps, each an announcement (A/B, arbitrary non-zero 128-bit id) or an operation (A/B, arbitrary stamp): after every operation the RIB was reached iff the sender is the true primary; at the end every response is unchanged by the later announcements"),
             dict(pkg="server", harness="VfC05_runElection3", quick=dict(skip=True), reach=["end", "accepted", "zero-id", "not-single-primary", "unknown-session"], bounds="as runElection with a session table {A,B,C}"),
         ],
         assumptions=[],
@@ -155,6 +159,7 @@ CHECKS["C16"] = dict(
                bounds="as mirror_q with all top-level kinds, slots in either instance, optional payload fields, groups of <=2 members"),
           dict(pkg="rib", harness="VfC16_flush", reach=["end", "pre-built"], opts=dict(only=["C16:"]), bounds="notifications issued by Flush of {default}, {vrf}, both"),
           dict(pkg="rib", harness="VfC16_resolved", reach=["end", "back-to-back"], replay_attempts=5, opts=dict(only=["C16:"]), bounds="resolved-entry hook: ADD then DELETE of a symbolic IPv4/IPv6/MPLS entry, the consumer running after each change or only after both (back to back); snapshots checked for content at the moment of the change, privacy and stability"),
+          dict(pkg="rib", harness="VfC16_resolvedCascade", reach=["end"], opts=dict(only=["C16:"]), bounds="resolved-entry hook for an IPv4 entry that was held (in either instance, waiting for a group of the default instance, implicit or explicit reference) and is installed by the cascade of the group's ADD: instance named in the notification and snapshot content"),
           dict(pkg="server", harness="VfC16_serverHooks", reach=["end"], bounds="server.New with the hook and VRF options in either order, plus AddNetworkInstance afterwards; one change per instance")],
     assumptions=["ygot.DeepCopy is modelled as a structural deep copy of the heap graph"],
     level_text="Bounded symbolic execution: a consumer folding the notifications is compared with the reference state after every operation, cascade and Flush; server construction is executed for both option orders.",
@@ -169,8 +174,8 @@ CHECKS["C07"] = dict(
                bounds="extended payload: 1 next-hop with one of 13 payload shapes (address, MAC, interface / subinterface reference, IP-in-IP, pushed label stack of 1-3 labels, all of them; symbolic valid content), 1 group, 1 IPv4/IPv6 entry with a decapsulate-header or 1 label entry with a popped stack of 1-2 labels; GetRIB of either instance with each of the 6 filters; every field and the ORDER of the stacks compared"),
           dict(pkg="rib", harness="VfC07_getRIB_eh", reach=["end", "pre-built", "all"], opts=dict(only=["C07:"]),
                bounds="encapsulation headers: 1 next-hop with an MPLS header (stack of 2, traffic class), a UDPv6 header with every field, or two headers in either index order (symbolic valid content), 1 group; GetRIB with each filter; headers matched by index, every field compared"),
-          dict(pkg="rib", harness="VfC07_getHistory", reach=["end", "pre-built", "flushed", "deleted"], opts=dict(only=["C07:", "C08:"]),
-               bounds="reads interleaved with changes: program next-hop(address+MAC) / group / label entry(popped stack) / IPv4 entry(decapsulate-header), Get(ALL), then nothing / Flush / DELETE of everything, then re-program under symbolic keys (equal to the old ones or not) with payloads of a different kind (interface reference + pushed stack of 3, other stack, other header), Get(ALL), Get(NEXTHOP), Get(MPLS): every Get reflects the state at its moment"),
+          dict(pkg="rib", harness="VfC07_getHistory", reach=["end", "pre-built", "flushed", "deleted", "shrunk"], opts=dict(only=["C07:", "C08:"]),
+               bounds="reads interleaved with changes: program next-hop(address+MAC) / group / label entry(popped stack) / IPv4 entry(decapsulate-header), Get(ALL), then nothing / Flush / DELETE of everything / re-programming the same keys with a strict subset of their payload (+ Get), then re-program under symbolic keys (equal to the old ones or not) with payloads of a different kind (interface reference + pushed stack of 3, other stack, other header), Get(ALL), Get(NEXTHOP), Get(MPLS): every Get reflects the state at its moment"),
           dict(pkg="rib", harness="VfC07_getRIB_p2", reach=["end", "pre-built", "all"], quick=dict(skip=True), opts=dict(only=["C07:"]),
                bounds="as getRIB_p (label entries only), then one further symbolic ADD/REPLACE of a next-hop / label entry that may re-program an installed key with any other payload shape, then Get(ALL) of either instance"),
           dict(pkg="rib", harness="VfC07_getRIB_big", reach=["end", "pre-built", "all"], opts=dict(only=["C07:"]),
@@ -258,6 +263,10 @@ CHECKS["C14"] = dict(
                bounds="real Connect (sender + receiver goroutines) against a scripted conformant stream with ONE fault: Send failing from index 0-3 (immediately, or slowly while the application keeps queueing) or Recv failing after 0-3 responses, 3 status classes; a burst of 8 queued requests (> buffer 5 + in flight); then AwaitConverged, Done, Close (optional), Reset, reconnect on a healthy stream, one more exchange; deterministic schedule"),
           dict(pkg="client", harness="VfC14_faultSched", reach=["end"], quick=dict(skip=True), validate=0, replay_attempts=10, opts=dict(unwind=40),
                bounds="as fault with one pre-emptive context switch at any synchronisation point"),
+          dict(pkg="client", harness="VfC14_endedThenQueue", reach=["end"], validate=2, opts=dict(unwind=40),
+               bounds="the server ends the RPC with an OK status while the client is idle (after the handshake and 0-2 answered operations); then 3 further requests are queued: the calls return, the terminated stream (Send returns io.EOF) is recorded as an error, AwaitConverged returns it, Close returns"),
+          dict(pkg="client", harness="VfC14_resetCloseError", reach=["end", "reset-done"], validate=2, opts=dict(unwind=40),
+               bounds="a fault that arrives while Reset is running: the server answers Reset's own half-close with one of 3 non-OK statuses, after 0-2 answered operations; after Reset no error is left and an exchange on a fresh stream converges"),
           dict(pkg="client", harness="VfC14_twoFaults", reach=["end"], validate=2, opts=dict(unwind=60),
                bounds="a sequence of two faults (each: kind, index, status class symbolic), with Reset + reconnect in between and a healthy exchange at the end")],
     assumptions=["the gRPC stream is a scripted object: a failed Send also ends the receive side, CloseSend ends the stream with EOF", "goroutines run as coroutines switching at synchronisation operations only"],
@@ -265,7 +274,8 @@ CHECKS["C14"] = dict(
     level_note="Trusted: go/ssa, gosym scheduler (context bound per run), z3.")
 
 CHECKS["C11"] = dict(
-    runs=[dict(pkg="server", harness="VfC11_lockset", reach=["end"], lockset=True, validate=0,
+    runs=[dict(pkg="server", harness="VfSelf_atomicPointer", reach=["end"], validate=1, bounds="engine self-test: sync/atomic.Pointer[T] Load / Store / CompareAndSwap / Swap keep what was stored (compared with the native run)"),
+          dict(pkg="server", harness="VfC11_lockset", reach=["end"], lockset=True, validate=0,
                bounds="roles: two sessions (connect, negotiate, announce a symbolic id, operate with a symbolic operation, disconnect), a Get(ALL) reader, a Flush caller (no id / override / symbolic id), all from one shared server state with two instances; every path of every handler; accesses to objects of the shared state are logged with the held lock set"),
           dict(pkg="server", harness="VfC11_concurrentElections", reach=["end"], validate=0, replay_attempts=3, opts=dict(unwind=16),
                bounds="two sessions announce arbitrary non-zero 128-bit ids concurrently (real runElection, two goroutines); every schedule with up to 2 pre-emptive context switches at synchronisation points; quiescent election state checked")],
@@ -286,8 +296,8 @@ CHECKS["C19"] = dict(
           dict(pkg="compliance", harness="VfC19_suiteRot", reach=["end"], quick=dict(skip=True), initpkg=_C19I, validate=0, watchdog_s=400, opts=dict(maxsleeps=400000, maxsteps=2000000000),
                bounds="as suite, in every rotation of the file order, forwards and backwards (158 of the 79! permutations)"),
           dict(pkg="compliance", harness="VfC19_faulty", reach=["end", "judged", "not-written-for-this-requirement"], initpkg=_C19I, validate=0, watchdog_s=100, opts=dict(maxsleeps=4000, maxsteps=40000000),
-               bounds="catalogue of 8 single-requirement faulty servers (the reference server behind a message filter: no FIB acks; DELETE of an absent entry fails; Get leaves out the last entry; Flush answers OK without flushing; election id reported with a wrong high word; repeated SessionParameters acknowledged; operations with a stale / unannounced election id programmed; Flush of one instance flushes all) x every test written for the broken requirement (by the suite's own Requires* flags and test documentation): the test must FAIL, for every symbolic configuration; timeouts of the client are modelled by virtual time")],
-    assumptions=["PARTIAL: decided are (a) every test alone and every ordered pair of tests on one server, for every starting election id in [1, 2^62) and every pair of instance names, (b) the 8-member fault catalogue; permutations of three and more tests other than the file order, its reverse and (thorough) their rotations, other faults, and the real gRPC transport / TLS / device wrapper are OUTSIDE",
+               bounds="catalogue of 9 single-requirement faulty servers (the reference server behind a message filter: no FIB acks; DELETE of an absent entry fails; Get leaves out the last entry; Flush answers OK without flushing; election id reported with a wrong high word; repeated SessionParameters acknowledged; operations with a stale / unannounced election id programmed; Flush of one instance flushes all; every session is told its own last id instead of the highest one) x every test written for the broken requirement (by the suite's own Requires* flags and test documentation): the test must FAIL, for every symbolic configuration; timeouts of the client are modelled by virtual time")],
+    assumptions=["PARTIAL: decided are (a) every test alone and every ordered pair of tests on one server, for every starting election id in [1, 2^62) and every pair of instance names, (b) the 9-member fault catalogue; permutations of three and more tests other than the file order, its reverse and (thorough) their rotations, other faults, and the real gRPC transport / TLS / device wrapper are OUTSIDE",
                  "client and server are joined by in-memory streams (channels) written in the harness: a Send after the handler returned yields io.EOF and Recv the handler's status, as gRPC does; Get runs the handler to completion before the client reads",
                  "context.WithTimeout / WithCancel are modelled on the engine's virtual clock: time advances by time.Sleep and jumps to the next deadline only when no goroutine can make progress otherwise (the suite's one-minute timeouts are long relative to processing)",
                  "one schedule per path (deterministic, switching at synchronisation points); scheduling is C10/C11/C14's subject",
